@@ -11,6 +11,7 @@ import (
 	"io"
 	"net"
 	"strings"
+	"sync"
 	"time"
 
 	"github.com/jech/storrent/pex"
@@ -236,6 +237,78 @@ func doStream(c *vhlib.Ctx, stream []byte, cuts []int, want []string, tag string
 	}
 }
 
+// capConn records everything written to it (the remote end's view of the connection).
+type capConn struct {
+	chunkConn
+	mu  sync.Mutex
+	buf bytes.Buffer
+}
+
+func (c *capConn) Write(p []byte) (int, error) {
+	c.mu.Lock()
+	defer c.mu.Unlock()
+	return c.buf.Write(p)
+}
+
+func (c *capConn) snapshot() []byte {
+	c.mu.Lock()
+	defer c.mu.Unlock()
+	return append([]byte(nil), c.buf.Bytes()...)
+}
+
+// doWriter queues k messages at once for the real protocol.Writer goroutine (so that its
+// batching / flushing logic is exercised) and compares the bytes that reach the connection
+// with the concatenation of the individual encodings.
+func doWriter(c *vhlib.Ctx, r *vhlib.Rand) {
+	k := 1 + r.Intn(6)
+	var ms []protocol.Message
+	var parts []string
+	var want []byte
+	for i := 0; i < k; i++ {
+		m := wirecanon.RandMsg(r, 400)
+		bs, bad := encodeMsg(m)
+		if bad != "" {
+			return
+		}
+		ms = append(ms, m)
+		parts = append(parts, wirecanon.CanonFull(m))
+		want = append(want, bs...)
+	}
+	op := "wstream " + strings.Join(parts, " ;; ")
+	conn := &capConn{}
+	ch := make(chan protocol.Message, 64)
+	done := make(chan struct{})
+	split := r.Intn(k + 1) // first `split` messages queued before the writer starts
+	for i := 0; i < split; i++ {
+		ch <- clone(ms[i])
+	}
+	var werr error
+	go func() { werr = protocol.Writer(conn, nil, ch, done) }()
+	for i := split; i < k; i++ {
+		ch <- clone(ms[i])
+	}
+	// the writer flushes when its queue runs empty; it is only told to stop (channel
+	// closed, as peer.Run does on exit) after everything queued has reached the connection
+	deadline := time.Now().Add(3 * time.Second)
+	for len(conn.snapshot()) < len(want) && time.Now().Before(deadline) {
+		time.Sleep(200 * time.Microsecond)
+	}
+	close(ch)
+	select {
+	case <-done:
+	case <-time.After(5 * time.Second):
+		c.Emit(op, "hang")
+		c.Violate("writer-hang", "protocol.Writer did not finish", []string{op})
+		return
+	}
+	got := conn.snapshot()
+	c.Emit(op, vhlib.Payload(got))
+	c.Count("wstream", op, true)
+	if werr != nil || !bytes.Equal(got, want) {
+		c.Violate("writer-stream", fmt.Sprintf("protocol.Writer emitted %d bytes (err=%v), expected the %d bytes of the %d queued messages in order", len(got), werr, len(want), k), []string{op})
+	}
+}
+
 func genStream(c *vhlib.Ctx, r *vhlib.Rand) {
 	k := 1 + r.Intn(5)
 	var stream []byte
@@ -308,9 +381,11 @@ func main() {
 		return
 	}
 	for i := 0; i < c.N; i++ {
-		if c.R.Chance(75) {
+		if c.R.Chance(65) {
 			max := c.R.PickInt(300, 300, 300, 300, 20000, 1<<20-8)
 			doEnc(c, wirecanon.RandMsg(c.R, max))
+		} else if c.R.Chance(30) {
+			doWriter(c, c.R)
 		} else {
 			genStream(c, c.R)
 		}
